@@ -1,6 +1,7 @@
 use crate::infra::{Run, Violation};
 use serde_json::Value;
 
+pub mod c03;
 pub mod c05;
 pub mod c05b;
 pub mod c06;
@@ -22,6 +23,7 @@ pub struct Entry {
 
 pub fn lookup(id: &str) -> Option<Entry> {
     Some(match id {
+        "C03" => Entry { level: "model_checking", run: c03::run, replay: c03::replay },
         "C05" => Entry { level: "model_checking", run: c05::run, replay: c05::replay },
         "C06" => Entry { level: "exploration", run: c06::run, replay: c06::replay },
         "C07" => Entry { level: "exploration", run: c07::run, replay: c07::replay },
